@@ -11,6 +11,10 @@ RUN_DIR = os.path.join(VERIF, 'build', 'run')
 BASE_DEFS = ['-DUSE_LIBFFI', '-DUSE_LIBZ', '-DUSE_NCURSES', '-DUSE_SQLITE']
 
 
+class Broken(Exception):
+    """analysis broken: anchor vanished / idiom not recognised / extractor failed"""
+
+
 _OVERLAY = None
 
 
@@ -66,18 +70,22 @@ def compile_flags(extra_includes=(), openmp=True):
 
 def ensure_sfx():
     if not os.path.exists(SFX) or os.path.getmtime(os.path.join(VERIF, 'tools/sfx/sfx.cc')) > os.path.getmtime(SFX):
-        subprocess.check_call([os.path.join(VERIF, 'build_sfx.sh')])
+        try:
+            subprocess.check_call([os.path.join(VERIF, 'build_sfx.sh')])
+        except subprocess.CalledProcessError as e:
+            raise Broken('sfx does not build: %s' % e)
 
-
-class Broken(Exception):
-    """analysis broken: anchor vanished / idiom not recognised / extractor failed"""
 
 
 def _run_one(job):
-    src, file_re, name_re, flags, out = job
+    src, file_re, name_re, flags, out = job[:5]
+    env = dict(os.environ)
+    env.pop('SFX_LAMBDA_VARTYPE_RE', None)
+    if len(job) > 5 and job[5]:
+        env['SFX_LAMBDA_VARTYPE_RE'] = job[5]
     t0 = time.time()
     p = subprocess.run([SFX, out, file_re, name_re, src, '--'] + flags, stdout=subprocess.PIPE,
-                       stderr=subprocess.STDOUT, text=True)
+                       stderr=subprocess.STDOUT, text=True, env=env)
     return (job, p.returncode, p.stdout, time.time() - t0)
 
 
@@ -119,7 +127,7 @@ class Unit:
 
 
 def extract(jobs, workers=16):
-    """jobs: list of (src_path, file_regex, name_regex[, flags]).  Returns list of Unit.
+    """jobs: list of (src_path, file_regex, name_regex[, flags[, lambda_vartype_regex]]).  Returns list of Unit.
     Facts are written under build/run/<pid>/ and removed after loading."""
     ensure_sfx()
     d = os.path.join(RUN_DIR, str(os.getpid()))
@@ -135,7 +143,7 @@ def extract(jobs, workers=16):
         if _OVERLAY is not None:
             src, extra = _OVERLAY.map(src)
             fl = extra + fl
-        full.append((src, fre, nre, fl, os.path.join(d, 'u%d.json' % n)))
+        full.append((src, fre, nre, fl, os.path.join(d, 'u%d.json' % n), j[4] if len(j) > 4 else None))
     units = []
     try:
         with ThreadPoolExecutor(max_workers=workers) as ex:
